@@ -584,8 +584,44 @@ Proof.
 Qed.
 
 (* tier minimum *)
-Lemma clamp_ge m v : m <= clamp m v.
-Proof. unfold clamp. destruct (v <? m) eqn:E; [lia|]. apply Z.ltb_ge in E. exact E. Qed.
+Lemma clamp_spec m v : m <= max_int32 -> clamp m v = Z.min (Z.max m v) max_int32.
+Proof.
+  intros Hm. unfold clamp. destruct (v <? m) eqn:E.
+  - apply Z.ltb_lt in E. destruct (max_int32 <? m) eqn:E2; [apply Z.ltb_lt in E2; lia|]. lia.
+  - apply Z.ltb_ge in E. destruct (max_int32 <? v) eqn:E2; [apply Z.ltb_lt in E2|apply Z.ltb_ge in E2]; lia.
+Qed.
+Lemma clamp_ge m v : m <= max_int32 -> m <= clamp m v.
+Proof. intros Hm. rewrite (clamp_spec m v Hm). lia. Qed.
+Lemma g_min_le_max g : g_min g <= max_int32.
+Proof. destruct g; vm_compute; discriminate. Qed.
+
+(* the tier arithmetic, over Z, for every timeout (any integer, in particular every int64 time.Duration) *)
+Lemma tier_secs_spec minv ns : minv <= max_int32 ->
+  tier_secs minv ns = Z.min (Z.max minv (whole_seconds ns)) max_int32.
+Proof. intros Hm. unfold tier_secs. now apply clamp_spec. Qed.
+Lemma tier_secs_bounds minv ns : minv <= max_int32 -> minv <= tier_secs minv ns <= max_int32.
+Proof. intros Hm. rewrite (tier_secs_spec minv ns Hm). lia. Qed.
+Lemma tier_secs_exact minv ns : minv <= whole_seconds ns <= max_int32 -> tier_secs minv ns = whole_seconds ns.
+Proof. intros H. rewrite tier_secs_spec; lia. Qed.
+Lemma whole_seconds_mono a b : a <= b -> whole_seconds a <= whole_seconds b.
+Proof. intros H. unfold whole_seconds, second_ns. apply Z.quot_le_mono; lia. Qed.
+Lemma tier_secs_mono minv a b : minv <= max_int32 -> a <= b -> tier_secs minv a <= tier_secs minv b.
+Proof. intros Hm H. rewrite !tier_secs_spec by exact Hm. pose proof (whole_seconds_mono a b H). lia. Qed.
+(* never earlier than the configured timeout (up to the int32 cap), never later than max(minimum, configured) *)
+Lemma tier_secs_window minv ns : minv <= max_int32 ->
+  Z.min (whole_seconds ns) max_int32 <= tier_secs minv ns <= Z.max minv (whole_seconds ns).
+Proof. intros Hm. rewrite tier_secs_spec by exact Hm. lia. Qed.
+(* whole seconds of a timeout of s seconds and a sub-second rest *)
+Lemma whole_seconds_of s r : 0 <= s -> 0 <= r < second_ns -> whole_seconds (s * second_ns + r) = s.
+Proof.
+  intros Hs Hr. unfold whole_seconds, second_ns in *. rewrite Z.quot_div_nonneg by lia.
+  symmetry. apply (Z.div_unique_pos _ _ s r); [lia|]. lia.
+Qed.
+
+(* the code before the fix (amd64): a tier of 100 years moved the data after the minimum *)
+Lemma old_conversion_moves_early : exists ns, 0 < ns < 2 ^ 63 /\ max_int32 < whole_seconds ns /\
+  old_tier_secs 60 ns = 60 /\ old_tier_secs 86400 ns = 86400 /\ tier_secs 60 ns = max_int32.
+Proof. exists 3153600000000000000. vm_compute. repeat split; congruence. Qed.
 
 Lemma group_call_tiers_ok cfg g c : group_call cfg g c -> tiers_ok c.
 Proof.
@@ -594,13 +630,38 @@ Proof.
   destruct Hin as [[t ->]|[t [Ht ->]]]; cbn; auto.
   unfold alter_call. destruct (is_sp g) eqn:Ek; cbn; auto.
   rewrite (table_min_group g t Ek Ht). unfold tiers_of.
-  apply Forall_forall. intros tr Hin. apply in_map_iff in Hin. destruct Hin as [p [<- _]]. cbn. apply clamp_ge.
+  apply Forall_forall. intros tr Hin. apply in_map_iff in Hin. destruct Hin as [p [<- _]]. cbn. apply clamp_ge. apply g_min_le_max.
 Qed.
 
 Lemma run_tiers_ok cfg f d : forall e, In e (run_log cfg f d) -> tiers_ok (fst e).
 Proof.
   unfold run_log, run, rotate. apply seq_ops_calls.
   - intros g c _. apply group_call_tiers_ok.
+  - intros e [].
+Qed.
+
+(* every MODIFY TTL of every run carries exactly the configured tiers: per tier of the configuration, in its order,
+   min(max(table minimum, whole seconds of the timeout), 2^31-1) seconds and the configured disk; and the
+   configured number of days for the final delete *)
+Definition tiers_spec (t : table) (ds : list policy) : list tier :=
+  map (fun p => {| tr_secs := Z.min (Z.max (table_min t) (whole_seconds (p_ns p))) max_int32; tr_disk := p_disk p |}) ds.
+Definition ttl_exact (cfg : config) (c : call) : Prop :=
+  match c with CTtl t _ ts dd => ts = tiers_spec t (days cfg) /\ dd = drop_days cfg | _ => True end.
+
+Lemma group_call_ttl_exact cfg g c : group_call cfg g c -> ttl_exact cfg c.
+Proof.
+  intros [->|[[v ->]|Hin]]; cbn; auto.
+  rewrite alters_unfold in Hin. apply in_alters_for in Hin.
+  destruct Hin as [[t ->]|[t [Ht ->]]]; cbn; auto.
+  unfold alter_call. destruct (is_sp g) eqn:Ek; cbn; auto.
+  split; [|reflexivity]. unfold tiers_of, tiers_spec. rewrite (table_min_group g t Ek Ht).
+  apply map_ext. intros p. f_equal. apply tier_secs_spec. apply g_min_le_max.
+Qed.
+
+Lemma run_ttl_exact cfg f d : forall e, In e (run_log cfg f d) -> ttl_exact cfg (fst e).
+Proof.
+  unfold run_log, run, rotate. apply seq_ops_calls.
+  - intros g c _. apply group_call_ttl_exact.
   - intros e [].
 Qed.
 
@@ -695,11 +756,11 @@ Proof. intros g t _ H. exfalso. now apply H. Qed.
 (* ------------------------------------------------------------------ examples: the hypotheses are met by non-trivial values *)
 Definition fresh : db := {| d_ttl := fun _ => "<initial>"; d_policy := fun _ => "<initial>"; d_settings := fun _ => "" |}.
 
-(* two tiers: 30 s (below both minima) to disk cold, 100 years (seconds do not fit int32; amd64 converts to -2^31) *)
+(* two tiers: 30 s (below both minima) to disk cold, 100 years (seconds do not fit int32: capped) *)
 Definition ex_a : config :=
   {| cluster := "c1"; distributed := true;
-     days := [ {| p_ns := 30000000000; p_disk := "cold"; p_conv := 30 |};
-               {| p_ns := 3153600000000000000; p_disk := ""; p_conv := -2147483648 |} ];
+     days := [ {| p_ns := 30000000000; p_disk := "cold" |};
+               {| p_ns := 3153600000000000000; p_disk := "" |} ];
      drop_days := 30; storage_policy := "tiered" |}.
 Definition ex_b : config :=
   {| cluster := "c1"; distributed := true; days := days ex_a; drop_days := 60; storage_policy := "tiered" |}.
@@ -718,12 +779,12 @@ Example ex_first_run :
   = (37%nat, 21%nat, true, 8%nat, 0%nat).
 Proof. vm_compute. reflexivity. Qed.
 
-(* the emitted tiers of that run: 60/60 on sample tables, 86400/86400 on index tables *)
+(* the emitted tiers of that run: 60 / 86400 for the 30 s tier, the int32 cap for the 100-year tier *)
 Example ex_tiers :
   map (fun e => match fst e with CTtl t _ ts _ => map tr_secs ts | _ => [] end)
       (filter (fun e => match fst e with CTtl TimeSeries _ _ _ | CTtl SamplesV3 _ _ _ => true | _ => false end)
               (run_log ex_a None fresh))
-  = [[86400; 86400]; [60; 60]].
+  = [[86400; 2147483647]; [60; 2147483647]].
 Proof. vm_compute. reflexivity. Qed.
 
 (* configuration a, then b interrupted after the first table of the time_series group was altered, then a again:
